@@ -177,10 +177,12 @@ func (c *Client) startCall() (hook ClientHook, resolved, released bool, finish f
 		return nil, true, false, func() {}
 	}
 	defer c.mu.Unlock()
+	verifYield("cap:startCall:c.mu")
 	c.mu.Lock()
 	if c.h == nil {
 		return nil, true, c.released, func() {}
 	}
+	verifYield("cap:startCall:h.mu")
 	c.h.mu.Lock()
 	c.h = resolveHook(c.h)
 	if c.h == nil {
@@ -190,6 +192,7 @@ func (c *Client) startCall() (hook ClientHook, resolved, released bool, finish f
 	c.h.mu.Unlock()
 	savedHook := c.h
 	return savedHook.ClientHook, savedHook.isResolved(), false, func() {
+		verifYield("cap:finish:h.mu")
 		savedHook.mu.Lock()
 		savedHook.calls--
 		if savedHook.refs == 0 && savedHook.calls == 0 {
@@ -204,10 +207,12 @@ func (c *Client) peek() (hook *clientHook, released bool, resolved bool) {
 		return nil, false, true
 	}
 	defer c.mu.Unlock()
+	verifYield("cap:peek:c.mu")
 	c.mu.Lock()
 	if c.h == nil {
 		return nil, c.released, true
 	}
+	verifYield("cap:peek:h.mu")
 	c.h.mu.Lock()
 	c.h = resolveHook(c.h)
 	if c.h == nil {
@@ -235,6 +240,7 @@ func resolveHook(h *clientHook) *clientHook {
 		if h == nil {
 			return nil
 		}
+		verifYield("cap:resolveHook:next.mu")
 		h.mu.Lock()
 	}
 }
@@ -323,6 +329,7 @@ func (c *Client) AddRef() *Client {
 		return nil
 	}
 	defer c.mu.Unlock()
+	verifYield("cap:AddRef:c.mu")
 	c.mu.Lock()
 	if c.released {
 		panic("AddRef on released client")
@@ -330,6 +337,7 @@ func (c *Client) AddRef() *Client {
 	if c.h == nil {
 		return nil
 	}
+	verifYield("cap:AddRef:h.mu")
 	c.h.mu.Lock()
 	c.h = resolveHook(c.h)
 	if c.h == nil {
@@ -430,12 +438,14 @@ func (c *Client) Release() {
 	if c == nil {
 		return
 	}
+	verifYield("cap:Release:c.mu")
 	c.mu.Lock()
 	if c.released || c.h == nil {
 		c.mu.Unlock()
 		return
 	}
 	c.released = true
+	verifYield("cap:Release:h.mu")
 	c.h.mu.Lock()
 	c.h = resolveHook(c.h)
 	if c.h == nil {
@@ -455,6 +465,7 @@ func (c *Client) Release() {
 	}
 	h.mu.Unlock()
 	c.mu.Unlock()
+	verifYield("cap:Release:done")
 	<-h.done
 	h.Shutdown()
 }
@@ -527,6 +538,7 @@ func (cp *ClientPromise) Fulfill(c *Client) {
 	// Obtain next client hook.
 	var rh *clientHook
 	if c != nil {
+		verifYield("cap:Fulfill:c.mu")
 		c.mu.Lock()
 		if c.released {
 			c.mu.Unlock()
@@ -538,6 +550,7 @@ func (cp *ClientPromise) Fulfill(c *Client) {
 	}
 
 	// Mark hook as resolved.
+	verifYield("cap:Fulfill:p.mu")
 	cp.h.mu.Lock()
 	if cp.h.isResolved() {
 		cp.h.mu.Unlock()
@@ -561,6 +574,7 @@ func (cp *ClientPromise) Fulfill(c *Client) {
 		rh.refs += refs
 		rh.mu.Unlock()
 	}
+	verifYield("cap:Fulfill:done")
 	<-cp.h.done
 	cp.h.Shutdown()
 }
@@ -581,6 +595,7 @@ func (wc *WeakClient) AddRef() (c *Client, ok bool) {
 	if wc.h == nil {
 		return nil, true
 	}
+	verifYield("cap:WeakAddRef:h.mu")
 	wc.h.mu.Lock()
 	wc.h = resolveHook(wc.h)
 	if wc.h == nil {
